@@ -338,6 +338,41 @@ Section Ops.
           apply pcost_swap; lia.
   Qed.
 
+  (* The fuel supplied by the model is never the reason a loop stops: any two sufficient
+     amounts of fuel give the same result (so the fuelled loops are the Python loops). *)
+  Lemma go_up_fuel f : forall f' (h : heap Z) i, i < f -> i < f' -> go_up f h i = go_up f' h i.
+  Proof.
+    induction f as [|f IH]; intros f' h i Hf Hf'; [lia|].
+    destruct f' as [|f']; [lia|]. rewrite !go_up_S.
+    destruct (Nat.ltb 0 i && better Z.ltb (hpol h) (pcost top h i) (pcost top h (dad i))) eqn:Hc;
+      [|reflexivity].
+    apply andb_true_iff in Hc. destruct Hc as [Hc _]. apply Nat.ltb_lt in Hc.
+    pose proof (dad_lt i Hc) as Hd. apply IH; lia.
+  Qed.
+
+  Lemma go_down_stop f (h : heap Z) i : hn h <= i -> go_down f h i = h.
+  Proof.
+    intros Hi. destruct f as [|f]; [reflexivity|]. rewrite go_down_S. cbv zeta.
+    pose proof (sel_spec (hpol h) (hn h) (pcost top h) i) as Hs. cbv zeta in Hs.
+    destruct Hs as [[Hj _]|(_ & Hij & Hjn & _)]; [|lia].
+    rewrite Hj, Nat.eqb_refl. reflexivity.
+  Qed.
+
+  Lemma go_down_fuel f : forall f' (h : heap Z) i,
+    hn h <= i + f -> hn h <= i + f' -> go_down f h i = go_down f' h i.
+  Proof.
+    induction f as [|f IH]; intros f' h i Hf Hf'.
+    - rewrite (go_down_stop f') by lia. reflexivity.
+    - destruct f' as [|f'].
+      + rewrite (go_down_stop (S f)) by lia. reflexivity.
+      + rewrite !go_down_S. cbv zeta.
+        pose proof (sel_spec (hpol h) (hn h) (pcost top h) i) as Hs. cbv zeta in Hs.
+        destruct (Nat.eqb_spec (sel (hpol h) (hn h) (pcost top h) i) i) as [E|Hne];
+          [reflexivity|].
+        destruct Hs as [[Hj _]|(_ & Hij & _)]; [contradiction|].
+        apply IH; change (hn (swap h i (sel (hpol h) (hn h) (pcost top h) i))) with (hn h); lia.
+  Qed.
+
   (* packaging: a sift applied to a structurally well-formed heap satisfying the loop
      invariant yields a heap satisfying [Inv] with the same content *)
   Lemma Same_HOrd h h' :
